@@ -634,6 +634,17 @@ def generate(rng, tier, index):
             lg["handlers"].append(gen_handler(rng, k, p_bad))
             k += 1
         loggers.insert(rng.randint(0, len(loggers)), lg)
+    # bare relative names are drawn from a small pool: two sections that
+    # happen to draw the same one would share a file by accident, and a
+    # rotating handler renames the file under the other one (a conflict in
+    # the configuration, not something the component can get right)
+    seen_rel = set()
+    for lg_ in loggers:
+        for h_ in lg_["handlers"]:
+            if h_.get("relname"):
+                while h_["path"] in seen_rel:
+                    h_["path"] += "x"
+                seen_rel.add(h_["path"])
     # the same format text in two handler sections that differ in
     # arbitrary-fields (validation must not be remembered per text)
     plainh = [h for lg in loggers for h in lg["handlers"]
